@@ -160,6 +160,32 @@ func c25ops() []pwOp {
 			})
 		}
 	}
+	for _, p := range []int{0xF0C3, 0xFFFF} {
+		for _, slot := range []string{"wrong", "empty"} {
+			p, slot := p, slot
+			// right owner password, wrong or missing user password: not judged whether it is accepted, but if it
+			// is, the passwords must be unaffected (the accepted set is probed afterwards)
+			ops = append(ops, pwOp{
+				name: fmt.Sprintf("setPermissions(%#x,owner-right=true,user-slot-%s)", p, slot),
+				apply: func(doc []byte, m pwModel) ([]byte, error) {
+					c := newConf()
+					c.OwnerPW = m.o
+					if slot == "wrong" {
+						c.UserPW = wrongOf(m.u)
+					}
+					c.Permissions = model.PermissionFlags(p)
+					var out bytes.Buffer
+					err := api.SetPermissions(bytes.NewReader(doc), &out, c)
+					return out.Bytes(), err
+				},
+				expect: func(m pwModel) (pwModel, int) {
+					n := m
+					n.perm = p
+					return n, -2
+				},
+			})
+		}
+	}
 	return ops
 }
 
